@@ -1,4 +1,8 @@
-use std::{cell::RefCell, fmt, rc::Rc};
+use std::{
+    cell::RefCell,
+    fmt,
+    rc::{Rc, Weak},
+};
 
 use crate::{
     container::Container,
@@ -10,7 +14,10 @@ use crate::{
 
 pub struct Divert {
     obj: Object,
-    target_pointer: RefCell<Pointer>,
+    // The resolved target is cached weakly: a strong reference from a divert to
+    // a container that (indirectly) holds the divert would form a cycle and
+    // the whole story would never be freed.
+    target_pointer: RefCell<Option<(Weak<Container>, i32)>>,
     target_path: RefCell<Option<Path>>,
     pub external_args: usize,
     pub is_conditional: bool,
@@ -37,7 +44,7 @@ impl Divert {
             stack_push_type,
             is_external,
             external_args,
-            target_pointer: RefCell::new(pointer::NULL.clone()),
+            target_pointer: RefCell::new(None),
             target_path: RefCell::new(Self::target_path_string(target_path)),
             variable_divert_name: var_divert_name,
         }
@@ -80,29 +87,38 @@ impl Divert {
     }
 
     pub fn get_target_pointer(self: &Rc<Self>) -> Pointer {
-        let target_pointer_null = self.target_pointer.borrow().is_null();
-        if target_pointer_null {
-            // No target path, or an empty one: there is nothing to point at, the
-            // pointer stays null and the divert is reported as unresolvable.
-            let target_path = self.target_path.borrow().clone();
-            if let Some(target_path) = target_path
-                && let Some(last_component) = target_path.get_last_component()
-            {
-                let target_obj = Object::resolve_path(self.clone(), &target_path)
-                    .obj
-                    .clone();
+        if let Some((container, index)) = self.target_pointer.borrow().as_ref()
+            && let Some(container) = container.upgrade()
+        {
+            return Pointer::new(Some(container), *index);
+        }
 
-                if let Some(index) = last_component.index {
-                    self.target_pointer.borrow_mut().container =
-                        target_obj.get_object().get_parent();
-                    self.target_pointer.borrow_mut().index = index as i32;
-                } else if let Ok(c) = target_obj.into_any().downcast::<Container>() {
-                    self.target_pointer.replace(Pointer::start_of(c));
-                }
+        let mut target_pointer = pointer::NULL.clone();
+
+        // No target path, or an empty one: there is nothing to point at, the
+        // pointer stays null and the divert is reported as unresolvable.
+        let target_path = self.target_path.borrow().clone();
+        if let Some(target_path) = target_path
+            && let Some(last_component) = target_path.get_last_component()
+        {
+            let target_obj = Object::resolve_path(self.clone(), &target_path)
+                .obj
+                .clone();
+
+            if let Some(index) = last_component.index {
+                target_pointer.container = target_obj.get_object().get_parent();
+                target_pointer.index = index as i32;
+            } else if let Ok(c) = target_obj.into_any().downcast::<Container>() {
+                target_pointer = Pointer::start_of(c);
             }
         }
 
-        self.target_pointer.borrow().clone()
+        if let Some(container) = target_pointer.container.as_ref() {
+            self.target_pointer
+                .replace(Some((Rc::downgrade(container), target_pointer.index)));
+        }
+
+        target_pointer
     }
 
     pub fn get_target_path(self: &Rc<Self>) -> Option<Path> {
